@@ -178,9 +178,15 @@ func checkC17(c C17Case, o *Obs) error {
 	if c.K < 1 || c.N < 1 || c.N > 1<<20 || !validRCSeqs(c.Seqs) || !validRCSeqs(c.Seqs2) || len(c.Seqs) == 0 {
 		return nil
 	}
-	old := mash.Seed
-	mash.Seed = c.Seed
-	defer func() { mash.Seed = old }()
+	if keepTempUntilBatchEnd {
+		// Concurrent stage: mash.Seed is a package-level setting, which a program sets once; the
+		// cases checked at the same time all use the seed that is in force.
+		c.Seed = mash.Seed
+	} else {
+		old := mash.Seed
+		mash.Seed = c.Seed
+		defer func() { mash.Seed = old }()
+	}
 	o.ClassIf(c.Seed != 0, "non-zero seed")
 	if c.Kind == "distance" {
 		return checkDistance(c, o)
@@ -523,3 +529,5 @@ func propC17() Prop[C17Case] {
 func TestC17(t *testing.T) { Run(t, propC17()) }
 
 func FuzzGenC17(f *testing.F) { RunFuzz(f, propC17()) }
+
+func TestRaceC17(t *testing.T) { RunConcurrent(t, propC17(), 4) }
